@@ -17,7 +17,7 @@ for d in seeded/${1:-*}/; do
   git -C $WT apply $PWD/$d/patch.diff || { echo "$id PATCH-DOES-NOT-APPLY"; git -C /repo worktree remove --force $WT; continue; }
   (cd $WT && timeout 600 bash -c "$cmd") >/tmp/sm_$id.after 2>&1; after=$?
   rm -rf $WT/$dest; [ -d $d/demo_extra ] && for x in $d/demo_extra/*; do rm -rf $WT/$(dirname $dest)/$(basename $x); done
-  (cd $WT && go build ./... && go test -vet=off -count=1 ./... 2>&1) >/tmp/sm_$id.base 2>&1
+  (cd $WT && go build ./... && flock /tmp/suite.lock go test -vet=off -count=1 ./... 2>&1) >/tmp/sm_$id.base 2>&1 # the suite binds a fixed port: one at a time
   okc=$(grep -c "^ok" /tmp/sm_$id.base); failc=$(grep -c "^FAIL\|^--- FAIL\|panic:" /tmp/sm_$id.base)
   res=""
   for c in $checks; do
